@@ -180,7 +180,7 @@ def verify_curves(case, src, pred, figs, nsel, aps):
                 return 'a drawn curve has no finite points (shape %r)' % (curve.shape,)
             x = curve[:, 0]
             p_idx = int(np.argmin(np.abs(x - lam)))
-            if abs(x[p_idx] - lam) > 1e-9 * lam:
+            if not (abs(x[p_idx] - lam) <= 1e-9 * lam):
                 return 'curve has no point at the fitted wavelength %r micron' % lam
             y = curve[p_idx, 1]
             if not (lo * (1 - 1.5e-3) <= y <= hi * (1 + 1.5e-3)):
@@ -281,8 +281,8 @@ def run_case(case, ctx):
                 for i in range(nsel):
                     pred.append({'name': str(info.model_name[i]).strip(), 'av': float(info.av[i]), 'sc': float(info.sc[i]),
                                  'mf': [float(v) for v in info.model_fluxes[i]]})
-                if any(abs(v) > 250. for p in pred for v in p['mf']) or any(abs(p['sc']) > 100. for p in pred) or \
-                        any(abs(p['av'] * kk) > 100. for p in pred for kk in k):
+                if any(not (abs(v) <= 250.) for p in pred for v in p['mf']) or any(not (abs(p['sc']) <= 100.) for p in pred) or \
+                        any(not (abs(p['av'] * kk) <= 100.) for p in pred for kk in k):
                     # the intermediate products (distance scaling x reddening) leave the float64 range
                     return labels | {'flux_out_of_float_range_skipped'}, False
                 preds.append(pred)
